@@ -124,7 +124,8 @@ ZoneInfo& info_for(const std::string& base, Loader* ld) {
 
 const std::vector<std::string>& enum_panel(const std::string& tier) {
   static std::vector<std::string> quick = {"shipped:America/New_York", "shipped:Australia/Lord_Howe", "shipped:Africa/Monrovia",
-                                           "shipped:Asia/Kathmandu", "shipped:Europe/Lisbon", "shipped:Pacific/Apia", "shipped:Africa/Casablanca", "shipped:Etc/UTC"};
+                                           "shipped:Asia/Kathmandu", "shipped:Europe/Lisbon", "shipped:Pacific/Apia", "shipped:Africa/Casablanca", "shipped:Etc/UTC",
+                                           "synth:501", "synth:503", "synth:505", "synth:508", "synth:512", "synth:520"};
   static std::vector<std::string> thorough;
   if (tier != "thorough") return quick;
   if (thorough.empty()) {
